@@ -75,11 +75,24 @@ func body(s *simrt.Sim, tier string) {
 	faulty := tp.Chance(700)
 	// workload variant (out of band): crashed agents restart on their directories
 	restartCrashed := s.Tape.Variant%2 == 1
+	// "duel" variant: one origin, one corrupting peer and one or two leechers
+	// that talk to both, endgame on, many damaged pieces: the honest seeder is
+	// the only source of the damaged pieces for the whole run, so anything that
+	// makes a leecher stop asking it shows as non-convergence.
+	duel := (s.Tape.Variant/2)%3 == 1
 	if faulty && tp.Chance(500) {
 		c.NW.MaxLatency = time.Duration(tp.Draw(80)) * time.Millisecond
 		c.NW.ChunkPm = tp.Draw(300)
 	}
 	nOrigins := 1 + tp.Draw(2)
+	if duel {
+		nOrigins = 1
+		sc.Dispatch.DisableEndgame = false
+		if sc.ConnState.MaxOpenConnectionsPerTorrent < 2 {
+			sc.ConnState.MaxOpenConnectionsPerTorrent = 2
+		}
+		c.P.Sched = sc
+	}
 	c.StartOrigins(nOrigins)
 	c.StartTracker()
 	maxBlob := 96 << 10
@@ -93,6 +106,9 @@ func body(s *simrt.Sim, tier string) {
 		d = c.Seed(o, blob)
 	}
 	nAgents := 2 + tp.Draw(3)
+	if duel && nAgents > 3 {
+		nAgents = 3
+	}
 	if thorough {
 		nAgents += tp.Draw(3)
 	}
@@ -112,7 +128,12 @@ func body(s *simrt.Sim, tier string) {
 	}
 	// --- the corrupting peer: agent 1 completes alone, then its cached copy is damaged
 	first := 0
-	if faulty && size > 0 && tp.Chance(400) {
+	corruptDraw := tp.Chance(400)
+	if duel && size > 0 {
+		faulty, corruptDraw = true, true
+		s.Probe("duel_variant")
+	}
+	if faulty && size > 0 && corruptDraw {
 		a := c.StartAgent(1)
 		x := &dl{agent: a, idx: 1, corrupt: true}
 		dls[0] = x
@@ -122,7 +143,7 @@ func body(s *simrt.Sim, tier string) {
 			s.Fail("no_convergence", "fault-free single agent download did not succeed: returned=%v err=%v", x.returned, x.err)
 		}
 		path := filepath.Join(a.Dir, "cache")
-		damage(s, path, d, size)
+		damage(s, path, d, size, duel)
 		s.Fault("peer_corrupt_payload")
 		first = 1
 	}
@@ -265,7 +286,7 @@ func checkBytes(s *simrt.Sim, x *dl, d core.Digest, blob []byte, when string) {
 }
 
 // damage flips one byte of the cached blob file on disk.
-func damage(s *simrt.Sim, cacheDir string, d core.Digest, size int) {
+func damage(s *simrt.Sim, cacheDir string, d core.Digest, size int, heavy bool) {
 	var target string
 	filepath.Walk(cacheDir, func(p string, fi os.FileInfo, err error) error {
 		if err == nil && !fi.IsDir() && fi.Name() == "data" && filepath.Base(filepath.Dir(p)) == d.Hex() {
@@ -284,6 +305,9 @@ func damage(s *simrt.Sim, cacheDir string, d core.Digest, size int) {
 		s.InfraError("damage: read %v len %d want %d", err, len(b), size)
 	}
 	n := 1 + s.Tape.Draw(3)
+	if heavy {
+		n += 3 + s.Tape.Draw(12)
+	}
 	for i := 0; i < n; i++ {
 		b[s.Tape.Draw(size)] ^= 0x5a
 	}
